@@ -1502,6 +1502,73 @@ proof fn lemma_eph_closed_transfer(d0: &GraphType, d1: &GraphType, j0: Seq<NodeI
     assert(s2.contains(n) && eph_closed_set(d1, j1, s2));
 }
 
+// ---------------------------------------------------------------- "can no longer be required" (C02: finding F8, repaired)
+/// a job that has been judged and will not ask its upstream Ephemerals to run
+spec fn settled_down(s: JobState) -> bool {
+    s == JobState::Output(JobStateOutput::NotReady(ValidationStatus::Validated))
+        || s == JobState::Output(JobStateOutput::FinishedSkipped)
+        || s == JobState::Output(JobStateOutput::FinishedUpstreamFailure)
+        || s == JobState::Ephemeral(JobStateEphemeral::FinishedUpstreamFailure)
+}
+
+spec fn waiting_val_eph(s: JobState) -> bool {
+    s == JobState::Ephemeral(JobStateEphemeral::NotReady(ValidationStatus::Validated))
+}
+
+/// every dependency out of `n` is marked "not required" and leads to a settled job or into `s`
+spec fn unreq_node(dag: &GraphType, jobs: Seq<NodeInfo>, n: usize, s: Set<usize>) -> bool {
+    forall|d: usize| #![trigger dag.is_nbr(n, Direction::Outgoing, d)] dag.is_nbr(n, Direction::Outgoing, d) ==>
+        dag.edges()[(n, d)].required == Required::No && (settled_down(jobs[d as int].state) || s.contains(d))
+}
+
+/// `s`: validated Ephemerals still waiting for their upstreams, none of which can be required any more - not by a
+/// direct consumer and not through another member
+spec fn unreq_closed(dag: &GraphType, jobs: Seq<NodeInfo>, s: Set<usize>) -> bool {
+    &&& forall|v: usize| #![trigger s.contains(v)] s.contains(v) ==> waiting_val_eph(jobs[v as int].state)
+    &&& forall|v: usize| #![trigger s.contains(v)] s.contains(v) ==> unreq_node(dag, jobs, v, s)
+}
+
+/// the direct consumers of `n` are settled or members of `s` (whatever the flags on n's own dependencies say)
+spec fn down_settled(dag: &GraphType, jobs: Seq<NodeInfo>, n: usize, s: Set<usize>) -> bool {
+    forall|d: usize| #![trigger dag.is_nbr(n, Direction::Outgoing, d)] dag.is_nbr(n, Direction::Outgoing, d) ==>
+        settled_down(jobs[d as int].state) || s.contains(d)
+}
+
+proof fn lemma_unreq_node_mono(dag: &GraphType, jobs: Seq<NodeInfo>, n: usize, s1: Set<usize>, s2: Set<usize>)
+    requires unreq_node(dag, jobs, n, s1), forall|x: usize| s1.contains(x) ==> s2.contains(x),
+    ensures unreq_node(dag, jobs, n, s2),
+{
+}
+
+proof fn lemma_unreq_closed_union(dag: &GraphType, jobs: Seq<NodeInfo>, s1: Set<usize>, s2: Set<usize>)
+    requires unreq_closed(dag, jobs, s1), unreq_closed(dag, jobs, s2),
+    ensures unreq_closed(dag, jobs, s1.union(s2)),
+{
+    let u = s1.union(s2);
+    assert forall|v: usize| #![trigger u.contains(v)] u.contains(v) implies unreq_node(dag, jobs, v, u) by {
+        if s1.contains(v) { assert(unreq_node(dag, jobs, v, s1)); lemma_unreq_node_mono(dag, jobs, v, s1, u); }
+        else { assert(s2.contains(v)); assert(unreq_node(dag, jobs, v, s2)); lemma_unreq_node_mono(dag, jobs, v, s2, u); }
+    }
+    assert forall|v: usize| #![trigger u.contains(v)] u.contains(v) implies waiting_val_eph(jobs[v as int].state) by {
+        if s1.contains(v) { } else { assert(s2.contains(v)); }
+    }
+}
+
+/// adding a waiting validated Ephemeral whose own dependencies are all accounted for
+proof fn lemma_unreq_closed_insert(dag: &GraphType, jobs: Seq<NodeInfo>, s: Set<usize>, d: usize)
+    requires unreq_closed(dag, jobs, s), waiting_val_eph(jobs[d as int].state), unreq_node(dag, jobs, d, s),
+    ensures unreq_closed(dag, jobs, s.insert(d)),
+{
+    let u = s.insert(d);
+    assert forall|v: usize| #![trigger u.contains(v)] u.contains(v) implies unreq_node(dag, jobs, v, u) by {
+        if v == d { lemma_unreq_node_mono(dag, jobs, v, s, u); }
+        else { assert(s.contains(v)); assert(unreq_node(dag, jobs, v, s)); lemma_unreq_node_mono(dag, jobs, v, s, u); }
+    }
+    assert forall|v: usize| #![trigger u.contains(v)] u.contains(v) implies waiting_val_eph(jobs[v as int].state) by {
+        if v != d { assert(s.contains(v)); }
+    }
+}
+
 // ---------------------------------------------------------------- rename matcher (C04/C03: try_finding_renamed_multi_output_job)
 /// history key `key` records what `down` consumed from some upstream
 spec fn rn_candidate(key: Seq<char>, down: Seq<char>) -> bool {
